@@ -262,7 +262,16 @@ func check(args []string) int {
 		var rcode int
 		raceResults, rc, rcode = runWorkers(rbin, id, *tier, seed, *runs, *wall, nw, work, replayDir, true)
 		if rcode == 2 {
-			return 2
+			nv := len(crashes)
+			for _, r := range results {
+				nv += r.ViolCount
+			}
+			if nv == 0 {
+				return 2
+			}
+			// violations found without the race detector stand whatever happened to the second build
+			fmt.Fprintln(os.Stderr, "the race-detector tier was aborted (harness trouble, see above); reporting what the plain tier found")
+			raceResults = nil
 		}
 		crashes = append(crashes, rc...)
 	}
@@ -349,7 +358,7 @@ func runWorkers(bin, id, tier string, seed int64, runs, wall, nw int, work, repl
 			// behind it. A mutex wait in the dump is left to a human (exit 2).
 			start := 0
 			until := time.Now().Add(time.Duration(wall) * time.Second)
-			for attempt := 0; attempt < 4; {
+			for attempt := 0; attempt < 12; {
 				left := int(time.Until(until).Seconds())
 				if left < 1 {
 					left = 1
@@ -378,9 +387,15 @@ func runWorkers(bin, id, tier string, seed int64, runs, wall, nw int, work, repl
 				}
 				attempt++
 				se := eb.String()
-				if !strings.Contains(se, "WATCHDOG:") || strings.Contains(se, "[sync.Mutex.Lock") || strings.Contains(se, "[sync.RWMutex") {
+				if !strings.Contains(se, "WATCHDOG:") {
 					break
 				}
+				// A goroutine waiting for a mutex in the dump: somebody sleeps on the fake clock
+				// with that mutex held (the code under test holding a lock across I/O or a
+				// callback, or two of its goroutines reading one TLS connection). The run is
+				// abandoned like the others so that the rest of the budget is still used, but it
+				// is counted: a check that found no violation does not pass with such runs (exit 2).
+				mutexWait := strings.Contains(se, "[sync.Mutex.Lock") || strings.Contains(se, "[sync.RWMutex")
 				if pb, perr := os.ReadFile(out + ".partial"); perr == nil {
 					var pr workerResult
 					if json.Unmarshal(pb, &pr) == nil {
@@ -395,7 +410,15 @@ func runWorkers(bin, id, tier string, seed int64, runs, wall, nw int, work, repl
 				}
 				run, _ := strconv.Atoi(f[1])
 				abandonedMu.Lock()
-				abandoned = append(abandoned, fmt.Sprintf("seed=%s run=%s over=%s", f[0], f[1], strings.Join(f[2:], "")))
+				note := ""
+				if mutexWait {
+					note = " (a goroutine was waiting for a mutex)"
+					abandonedMutex++
+					if abandonedMutexDump == "" {
+						abandonedMutexDump = se
+					}
+				}
+				abandoned = append(abandoned, fmt.Sprintf("seed=%s run=%s over=%s%s", f[0], f[1], strings.Join(f[2:], ""), note))
 				abandonedMu.Unlock()
 				start = run + 1
 			}
@@ -449,8 +472,10 @@ func runWorkers(bin, id, tier string, seed int64, runs, wall, nw int, work, repl
 }
 
 var (
-	abandonedMu sync.Mutex
-	abandoned   []string
+	abandonedMu        sync.Mutex
+	abandoned          []string
+	abandonedMutex     int
+	abandonedMutexDump string
 )
 
 // mergeWorker adds the result of a resumed worker process to what its
@@ -675,6 +700,10 @@ func report(id, tier string, seed int64, meta *propMeta, results, raceResults []
 		fmt.Fprintln(os.Stderr, "no evaluations were run")
 		return 2
 	}
+	if exit == 0 && abandonedMutex > 0 {
+		fmt.Fprintf(os.Stderr, "%d runs froze the fake clock with a goroutine waiting for a mutex and were abandoned; no violation was found elsewhere, so this is harness trouble (exit 2). First dump:\n%s\n", abandonedMutex, clipStr(abandonedMutexDump, 6000))
+		return 2
+	}
 	// coverage self-check: every stratum the check is built around was reached
 	if exit == 0 && evals >= 5000 {
 		var missing []string
@@ -828,4 +857,11 @@ func selftest(args []string) int {
 		return 2
 	}
 	return 0
+}
+
+func clipStr(s string, n int) string {
+	if len(s) > n {
+		return s[:n] + "..."
+	}
+	return s
 }
